@@ -240,7 +240,7 @@ def replay_spaces(info):
         rc, out, err = common.run_stylua(binp, src, ["--space-after-function-names", mode])
         if rc != 0:
             continue
-        defs = re.findall(r"function (?:\w+)?( ?)\(", out)
+        defs = re.findall(r"function(?: \w+)?( ?)\(", out)
         calls = re.findall(r"^(?:f|t\.k|t:m)( ?)\(", out, re.M)
         want_def = " " if mode in ("Always", "Definitions") else ""
         want_call = " " if mode in ("Always", "Calls") else ""
